@@ -87,45 +87,54 @@ fn stage_chain(ctx: &mut Ctx, f: &[BigInt], p: &BigInt) {
     }
 }
 
-/// the factor list printed by the CLI for one modulus, in the wire format of `pm.factor`
+/// the factor lists printed by the CLI, one per modulus, each in the wire format of `pm.factor`,
+/// as `modulus=list` joined by `|`
 fn parse_cli(out: &str) -> Option<String> {
-    let mut facs = vec![];
-    let mut rest = out;
-    while let Some(i) = rest.find("\"factor_vec\":") {
-        rest = &rest[i..];
-        let a = rest.find('[')?;
-        let b = rest.find(']')?;
-        let coefs: Vec<String> =
-            rest[a + 1..b].split(',').map(|s| s.trim().trim_matches('"').to_string()).filter(|s| !s.is_empty()).collect();
-        rest = &rest[b..];
-        let j = rest.find("\"e\":")?;
-        let e: String = rest[j + 4..].trim_start().chars().take_while(|c| c.is_ascii_digit()).collect();
-        rest = &rest[j..];
-        facs.push(format!("{}:{}", if coefs.is_empty() { "_".to_string() } else { coefs.join(",") }, e));
+    let mut per = vec![];
+    for block in out.split("\"modulus\":").skip(1) {
+        let a = block.find('"')?;
+        let b = block[a + 1..].find('"')?;
+        let modulus = block[a + 1..a + 1 + b].to_string();
+        let mut facs = vec![];
+        let mut rest = block;
+        while let Some(i) = rest.find("\"factor_vec\":") {
+            rest = &rest[i..];
+            let a = rest.find('[')?;
+            let b = rest.find(']')?;
+            let coefs: Vec<String> =
+                rest[a + 1..b].split(',').map(|s| s.trim().trim_matches('"').to_string()).filter(|s| !s.is_empty()).collect();
+            rest = &rest[b..];
+            let j = rest.find("\"e\":")?;
+            let e: String = rest[j + 4..].trim_start().chars().take_while(|c| c.is_ascii_digit()).collect();
+            rest = &rest[j..];
+            facs.push(format!("{}:{}", if coefs.is_empty() { "_".to_string() } else { coefs.join(",") }, e));
+        }
+        per.push(format!("{}={}", modulus, if facs.is_empty() { "_".to_string() } else { facs.join(";") }));
     }
-    if !out.contains("\"modulus\"") {
+    // serde_json prints the keys of a struct in declaration order: "modulus" precedes "factors"
+    if per.is_empty() && !out.trim_start().starts_with('[') {
         return None;
     }
-    Some(if facs.is_empty() { "_".to_string() } else { facs.join(";") })
+    Some(if per.is_empty() { "none".to_string() } else { per.join("|") })
 }
-/// process level: `rust-number-theory <config>` with to_find = factorization-mod-p (the glue computes the
-/// machine-word copy of p itself: `as_usize` in main.rs)
-fn do_cli(ctx: &mut Ctx, f: &[BigInt], p: &BigInt) {
+/// process level: `rust-number-theory <config>` with to_find = factorization-mod-p and several primes
+/// (the glue computes the machine-word copy of each p itself: `as_usize` in main.rs)
+fn do_cli(ctx: &mut Ctx, f: &[BigInt], ps: &[BigInt]) {
     let cfg = format!(
-        "to_find = ['factorization-mod-p']\n[input.polynomial_and_primes]\npolynomial = {}\nprimes = ['{}']\n",
+        "to_find = ['factorization-mod-p']\n[input.polynomial_and_primes]\npolynomial = {}\nprimes = {}\n",
         toml_list(f),
-        p
+        toml_list(ps)
     );
     if let Some(out) = run_cli(&cfg) {
         let ans = if out.starts_with("panic") { out } else { parse_cli(&out).unwrap_or_else(|| "noanswer".into()) };
-        ctx.emit("cli.fmp", &[show_ints(f), p.to_string()], ans);
+        ctx.emit("cli.fmp", &[show_ints(f), show_ints(ps)], ans);
     }
 }
 
 pub fn replay(ctx: &mut Ctx, f: &[&str]) -> bool {
     match (f[0], f.len()) {
         ("cli.fmp", 3) => {
-            do_cli(ctx, &parse_ints(f[1]), &parse_int(f[2]));
+            do_cli(ctx, &parse_ints(f[1]), &parse_ints(f[2]));
             return true;
         }
         ("pm.sqfree", 4) => {
@@ -400,7 +409,15 @@ pub fn generate(ctx: &mut Ctx) {
             if round % 3 == 0 {
                 f.push(BigInt::zero());
             }
-            do_cli(ctx, &f, p);
+            // one, two or three moduli in one run
+            let mut ps = vec![p.clone()];
+            for _ in 0..ctx.rng.below(3) {
+                ps.push(primes[ctx.rng.below(9) as usize].clone());
+            }
+            if ctx.rng.chance(1, 2) {
+                ps.reverse();
+            }
+            do_cli(ctx, &f, &ps);
         }
     }
     for (fz, p, u) in [
